@@ -703,9 +703,9 @@ func c02R5(p *core.Prog, r *core.Report) {
 			// layout: the descriptor is the one found in the index (or built from the reference digest), not a fresh literal
 			if oc := have["WithDesc"]; oc != nil && w.rel == ocidirRel {
 				fromIndex := false
-				isLookup := func(f *ssa.Function) bool { return f.Name() == "indexGet" }
+				isLookup := func(f *ssa.Function) bool { return canon(f) == "indexGet" }
 				for _, o := range core.Origins(oc.Call.Args[0], core.SliceOpts{Helpers: core.HelpersExcept(fn, 2, isLookup)}) {
-					if o.Kind == core.OCall && o.Callee() != nil && o.Callee().Name() == "indexGet" {
+					if o.Kind == core.OCall && o.Callee() != nil && canonObj(o.Callee()) == "indexGet" {
 						fromIndex = true
 					}
 				}
